@@ -16,6 +16,7 @@ import (
 	"strconv"
 	"strings"
 	"sync/atomic"
+	"time"
 
 	"github.com/mithrandie/csvq/lib/option"
 	"github.com/mithrandie/csvq/lib/query"
@@ -160,6 +161,19 @@ type Runner struct {
 }
 
 var wrapSeq int64
+
+// shortWait: a lock time-out was already reported in this run
+var shortWait bool
+
+func applyWait(prs ...*hc.Proc) {
+	if shortWait {
+		for _, pr := range prs {
+			if pr != nil {
+				pr.P.Tx.WaitTimeout = 200 * time.Millisecond
+			}
+		}
+	}
+}
 
 var WrapKinds = []string{"if", "if2", "while", "func", "prepare"}
 
@@ -1683,6 +1697,7 @@ type Outcome struct {
 // Exec runs st on the main processor, checks the direct laws, records the case (if the model has an op for it).
 func (r *Runner) Exec(st *Stmt, cancelAt int64) *Outcome {
 	o := r.O
+	applyWait(r.Pr, r.Twin)
 	before := r.snapAll()
 	marksBefore := Marks(r.Pr)
 	filesBefore := r.listing()
@@ -1825,6 +1840,8 @@ func (r *Runner) Exec(st *Stmt, cancelAt int64) *Outcome {
 			// STDIN / temporary tables never has to wait (the stdin re-lock defect fixed in 1986c14)
 			o.Law("stdin_second_statement_timeout", replay())
 			out.Failed = append(out.Failed, "stdin_second_statement_timeout")
+			// reported once; the rest of the run does not wait the full time-out for every further occurrence
+			shortWait = true
 		}
 		out.Line = fmt.Sprintf("E%d %s", code, Marks(r.Pr))
 	} else {
